@@ -13,6 +13,7 @@ import (
 
 	"github.com/pingcap/failpoint"
 	"github.com/pingcap/kvproto/pkg/errorpb"
+	tikverr "github.com/tikv/client-go/v2/error"
 	"github.com/tikv/client-go/v2/tikvrpc"
 	"github.com/tikv/client-go/v2/verifh/vrep"
 
@@ -344,6 +345,41 @@ func faults(sh Shape) []fault {
 			}}
 		}, false},
 	}
+	if !sh.Async && !sh.OnePC {
+		// a reader with a fresh timestamp meets the victim's (live) locks at this instant: its resolver pushes the
+		// primary's min_commit_ts above its own timestamp and reads the old values; the victim's commit must then land
+		// above the reader's snapshot (commit-ts-expired retry).  Not for async commit / 1PC: a reader cannot push those
+		// locks and would wait for the ttl.
+		fs = append(fs, fault{"reader-pushes-min-commit-ts", func(env *Env, c *uni.Call) uni.Action {
+			return uni.Action{Before: func() {
+				o, err := env.U.NewClient()
+				if err != nil {
+					return
+				}
+				ts, err := o.Store.CurrentTimestamp("global")
+				if err != nil {
+					return
+				}
+				ctx, cancel := context.WithTimeout(context.Background(), 3*time.Second)
+				defer cancel()
+				snap := o.Store.GetSnapshot(ts)
+				pr := PushRead{TS: ts, Vals: map[string]string{}}
+				for _, m := range env.Shape.Muts {
+					v, err := snap.Get(ctx, []byte(m.Key))
+					switch {
+					case err == nil:
+						pr.Vals[m.Key] = string(v.Value)
+					case tikverr.IsErrNotFound(err):
+					default:
+						pr.Err = fmt.Sprintf("%T: %v", err, err)
+					}
+				}
+				env.PushMu.Lock()
+				env.PushReads = append(env.PushReads, pr)
+				env.PushMu.Unlock()
+			}}
+		}, false})
+	}
 	return fs
 }
 
@@ -456,6 +492,39 @@ func runFaults(r, tr *vrep.Report, sh Shape, primary string, plan []*injected) {
 	for _, p := range env.U.Panics() {
 		r.Violate("backend-panic:"+p.Msg, label+": the store panicked serving "+p.Req, nil)
 	}
+	// a reader that looked at the keys during the commit (and pushed the locks) has a snapshot to be honoured
+	env.PushMu.Lock()
+	for _, pr := range env.PushReads {
+		if pr.Err != "" {
+			r.Count("push_reader_errors", 1)
+			continue
+		}
+		r.Count("push_reads", 1)
+		var sawNew, sawOld []string
+		for _, mu := range sh.Muts {
+			be, ok := rec.Buf[mu.Key]
+			if !ok || (be.Kind != work.BufPut && !(be.Kind == work.BufDel && !be.Insert && env.Old[mu.Key] != "")) {
+				continue
+			}
+			got, found := pr.Vals[mu.Key]
+			isNew := (be.Kind == work.BufPut && found && got == be.Val) || (be.Kind == work.BufDel && !found)
+			if isNew {
+				sawNew = append(sawNew, mu.Key)
+			} else {
+				sawOld = append(sawOld, mu.Key)
+			}
+		}
+		if len(sawNew) > 0 && len(sawOld) > 0 {
+			r.Violate("push-reader:fractured-read", fmt.Sprintf("%s: a reader at ts %d during the commit saw the victim's writes on %v but not on %v", label, pr.TS, sawNew, sawOld), detail)
+		}
+		if len(sawOld) > 0 && v.Committed && v.CommitTS != 0 && v.CommitTS <= pr.TS {
+			r.Violate("push-reader:snapshot-violated", fmt.Sprintf("%s: a reader at ts %d during the commit did not see the victim's writes on %v, yet the victim committed at %d <= that snapshot", label, pr.TS, sawOld, v.CommitTS), detail)
+		}
+		if len(sawNew) > 0 && (!v.Committed || v.CommitTS > pr.TS) {
+			r.Violate("push-reader:read-uncommitted", fmt.Sprintf("%s: a reader at ts %d saw the victim's writes on %v, but the victim is committed=%v at %d", label, pr.TS, sawNew, v.Committed, v.CommitTS), detail)
+		}
+	}
+	env.PushMu.Unlock()
 	if rec.CommitClass == work.EUndetermined {
 		r.Count("answer_undetermined", 1)
 		if !lost {
@@ -542,6 +611,7 @@ func TestVerifC03(t *testing.T) {
 	r.Floor("faults_on_commit_point_rpcs", 10)
 	r.Floor("answer_undetermined", 3)
 	r.Floor("sticky_fault_executions", 50)
+	r.Floor("push_reads", 20)
 	_ = rand.Int
 	_ = sort.Strings
 }
